@@ -275,7 +275,7 @@ func AssembleRaw(hash uint32, hdrSize int, z []byte, ulen int64, root *Node, hea
 			if ck := toc.Child("checksum"); ck != nil {
 				off, e1 := strconv.ParseInt(strings.TrimSpace(textOf(ck.Child("offset"))), 10, 64)
 				d := Digest(HashName(hash), z)
-				if e1 == nil && off >= 0 && int(off)+len(d) <= len(heap) {
+				if e1 == nil && off >= 0 && off <= int64(len(heap)) && int(off)+len(d) <= len(heap) {
 					copy(heap[off:], d)
 				}
 			}
